@@ -315,3 +315,63 @@ def check_tail_protocol(ctx, m, cfg, rule="R-OWN"):
             else:
                 ctx.ok(rule, inst, "no object is handed to addNewLinkedPolygon twice: each call appends behind the polygon the previous call returned")
     return n
+
+
+# ---- L7: every collected hole is consumed by the assignment loop
+def check_hole_loop(ctx, m, cfg, rule="R-OWN"):
+    """normalizeMultiPolygon unlinks every loop from the root and collects the clockwise ones; the assignment loop then either attaches
+    each to a polygon or destroys it.  An exit from that loop other than `all collected holes visited` leaves the remaining holes
+    unreachable and allocated (they are no longer part of the result, so destroyLinkedMultiPolygon cannot release them).  Such an exit
+    is a violation unless the code after it destroys loops in a loop of its own (then the shape is new: ANALYSIS-BROKEN)."""
+    from .rules_argmin import _loop_blocks
+    from .rules_fold import _in_cycle
+    f = m.fn("normalizeMultiPolygon")
+    calls = [i for i in f.all_insts() if i.op == "call" and i.callee == "findPolygonForHole"]
+    if len(calls) != 1:
+        raise AnalysisBroken("normalizeMultiPolygon: expected one findPolygonForHole call")
+    call = calls[0]
+    # innermost loop containing the call
+    best = None
+    for h in range(len(f.blocks)):
+        lb = _loop_blocks(f, h)
+        if h in lb and call.block.idx in lb and (best is None or len(lb) < len(best[1])):
+            best = (h, lb)
+    if best is None:
+        raise AnalysisBroken("normalizeMultiPolygon: findPolygonForHole is not called in a loop")
+    header, loop = best
+    inst = {"rule": "L7", "function": f.name, "config": cfg}
+    exits = []
+    for b in sorted(loop):
+        t = f.blocks[b].term
+        for s in t.succs():
+            if s not in loop:
+                exits.append((b, s, t))
+    # the legitimate exit: the header's comparison of the counter with the number of collected holes
+    extra = [(b, s, t) for (b, s, t) in exits if b != header]
+    hdr = [(b, s, t) for (b, s, t) in exits if b == header]
+    if len(hdr) != 1:
+        raise AnalysisBroken("normalizeMultiPolygon: the hole loop has no single exit at its header")
+    t = hdr[0][2]
+    cond = f.insts[t.ops[0][1]] if t.op == "br" and len(t.ops) == 3 and t.ops[0][0] == "i" else None
+    if cond is None or cond.op != "icmp":
+        raise AnalysisBroken("normalizeMultiPolygon: the hole loop's header test is not an integer comparison")
+    if not extra:
+        ctx.ok(rule, inst, "the hole-assignment loop is only left when its counter reaches the number of collected holes: every hole is attached or destroyed")
+        return 1
+    # is there a clean-up loop that destroys loops after the early exit?
+    b, s, t = extra[0]
+    seen, todo, cleanup = set(), [s], False
+    while todo:
+        x = todo.pop()
+        if x in seen or x in loop:
+            continue
+        seen.add(x)
+        for i in f.blocks[x].insts:
+            if i.op == "call" and i.callee == "destroyLinkedGeoLoop" and _in_cycle(f, x):
+                cleanup = True
+        todo += f.blocks[x].succs()
+    if cleanup:
+        raise AnalysisBroken("normalizeMultiPolygon: the hole loop has an early exit followed by its own clean-up of loops; the rule cannot tell whether every remaining hole is released")
+    ctx.violation(rule, "L7:hole-loop-exit", "normalizeMultiPolygon leaves the hole-assignment loop at %s before all collected holes were visited; the remaining holes were unlinked from the result "
+                  "and are neither attached nor destroyed afterwards (they leak, also when the function reports an error)" % t.where(), t.where(), inst)
+    return 1
